@@ -8,7 +8,7 @@
     gguf-layers <maxSeek> <hex>
         -> what POST /api/create makes of an uploaded file: `err` | `loop` | `death` | `ok sizes=<n1,n2,…> media=<m|a|p,…>` (one model layer per
            GGUF found back to back in the file, with the bytes each layer gets)
-    gguf-from <hex> / gguf-show <hex>
+    gguf-from <maxSeek> <hex> / gguf-show <maxSeek> <hex>
         -> what POST /api/create {"from"} / POST /api/show (verbose) answer for an installed model whose weights are the file:
            `ok` | `err` | `death`
 -/
@@ -48,16 +48,18 @@ def handle (toks : List String) : Option String :=
   | "gguf-from" :: rest =>
     -- POST /api/create {"from": m} on an installed model whose single model layer is the file
     runTP (do
+      let maxSeek ← nat
       let bs ← hex
-      pure (match createFrom [bs] none Guards.tree with
+      pure (match createFrom [bs] none Guards.tree maxSeek with
         | .error (.panic _) => "death"
         | .error _ => "err"
         | .ok _ => "ok")) rest
   | "gguf-show" :: rest =>
     -- POST /api/show (verbose) on an installed model whose weights are the file
     runTP (do
+      let maxSeek ← nat
       let bs ← hex
-      pure (match showModel bs true none Guards.tree with
+      pure (match showModel bs true none Guards.tree maxSeek with
         | .error (.panic _) => "death"
         | .error _ => "err"
         | .ok _ => "ok")) rest
